@@ -112,6 +112,7 @@ func ParseCheckpoint(chkpt []byte, origin string, logSigV note.Verifier, otherSi
 	if !Valid(chkpt, origin, k, others) {
 		return nil, nil, nil, errOpen
 	}
+	Assume(UFBool("hasNewline", chkpt)) // a signed note has at least two lines
 	Assume(SigLines(chkpt) >= 1)
 	Assume(SigLines(chkpt) <= 100)
 	cp := &log.Checkpoint{Origin: origin, Size: CpSize(chkpt), Hash: CpHash(chkpt)}
